@@ -649,6 +649,15 @@ def apply_patch(text, p, fired, where):
             raise Undecided(f"{p.get('rule', 'R4')} patch anchor {old!r} (flex) occurs {n} times in {where}, expected {cnt}")
         fired.append(p.get("rule", "R4"))
         return rx.sub(lambda m: new, text)
+    if "nth" in p:
+        # replace only the nth occurrence (0-based); the anchor must occur at least nth+1 times
+        k, pos = p["nth"], -1
+        for _ in range(k + 1):
+            pos = text.find(old, pos + 1)
+            if pos < 0:
+                raise Undecided(f"{p.get('rule', 'R4')} patch anchor {old!r} has no occurrence #{k} in {where}")
+        fired.append(p.get("rule", "R4"))
+        return text[:pos] + new + text[pos + len(old):]
     n = text.count(old)
     if cnt == "any":
         if n == 0:
